@@ -20,6 +20,10 @@ import (
 //	        [0 v] First/Last, [1 2] Delete skipped because Find found no node,
 //	        [1 9] the list type has no such method; [2] recovered panic, [3] hang: the case ends.
 //
+// Checkpointed histories (the "large" stream): kind 2 = SList, 3 = DList, the same records plus
+// code 13 = Look.  Per record only the call's result is written; a Look writes
+// enc_zs(Each sequence) ++ [First Last] (DList only).
+//
 // Handles are always taken from Find immediately before use.  A failed Find
 // yields a nil handle: InsertAfter/InsertBefore are called with it (the code
 // answers with an error), Delete is NOT called (Delete(nil) dereferences nil;
@@ -37,12 +41,13 @@ const (
 	c19First
 	c19Last
 	c19Clear
+	c19Look // checkpointed histories only
 )
 
-var c19Names = []string{"?", "Unshift", "Append", "InsertAfter", "InsertBefore", "Replace", "Delete", "Shift", "Pop", "Find", "First", "Last", "Clear"}
+var c19Names = []string{"?", "Unshift", "Append", "InsertAfter", "InsertBefore", "Replace", "Delete", "Shift", "Pop", "Find", "First", "Last", "Clear", "Look"}
 
-// c19EachLimit bounds the callbacks of one Each: a list of a 200-step history
-// has at most 201 nodes, so more calls mean the next-chain is cyclic and Each
+// c19EachLimit bounds the callbacks of one Each: the longest list any stream
+// builds has about 10^4 nodes, so more calls mean the next-chain is cyclic and Each
 // would never return.  The callback then aborts the traversal cooperatively
 // (no spinning goroutine is leaked) and the step is recorded as a hang.
 const c19EachLimit = 100000
@@ -186,32 +191,21 @@ func c19Run(in []int64, out *[]int64, mu *sync.Mutex, abandoned *bool) {
 	kind, init := r.Int(), r.Int()
 	var l *c19List
 	switch kind {
-	case 0:
+	case 0, 2:
 		l = c19NewS(init)
-	case 1:
+	case 1, 3:
 		l = c19NewD(init)
 	default:
 		emit(-999999)
 		return
 	}
-	rest := r.Rest()
-	for i := 0; i+3 <= len(rest); i += 3 {
-		code, a, b := int(rest[i]), int(rest[i+1]), int(rest[i+2])
-		if code < 1 || code > 12 {
-			mu.Lock()
-			*out = []int64{-999999}
-			mu.Unlock()
-			return
-		}
-		var res []int64
-		if p, h := c19Guard(func() { res = l.call(code, a, b) }); p || h {
-			if p {
-				emit(2)
-			} else {
-				emit(3)
-			}
-			return
-		}
+	quiet := kind >= 2 // checkpointed: the list is looked at only by Look records
+	maxCode := c19Clear
+	if quiet {
+		maxCode = c19Look
+	}
+	// look: Each, then (DList) First and Last; ok=false after a panic / hang marker was written
+	look := func(prefix []int64) bool {
 		var seq []int64
 		p, h := c19Guard(func() {
 			n := 0
@@ -231,19 +225,51 @@ func c19Run(in []int64, out *[]int64, mu *sync.Mutex, abandoned *bool) {
 			} else {
 				emit(3)
 			}
-			return
+			return false
 		}
-		step := append(res, int64(len(seq)))
+		step := append(prefix, int64(len(seq)))
 		step = append(step, seq...)
 		if l.dlist {
 			var f, la int
 			if p, _ := c19Guard(func() { f = l.first(); la = l.last() }); p {
 				emit(2)
-				return
+				return false
 			}
 			step = append(step, int64(f), int64(la))
 		}
-		if !emit(step...) {
+		return emit(step...)
+	}
+	rest := r.Rest()
+	for i := 0; i+3 <= len(rest); i += 3 {
+		code, a, b := int(rest[i]), int(rest[i+1]), int(rest[i+2])
+		if code < 1 || code > maxCode {
+			mu.Lock()
+			*out = []int64{-999999}
+			mu.Unlock()
+			return
+		}
+		if code == c19Look {
+			if !look(nil) {
+				return
+			}
+			continue
+		}
+		var res []int64
+		if p, h := c19Guard(func() { res = l.call(code, a, b) }); p || h {
+			if p {
+				emit(2)
+			} else {
+				emit(3)
+			}
+			return
+		}
+		if quiet {
+			if !emit(res...) {
+				return
+			}
+			continue
+		}
+		if !look(res) {
 			return
 		}
 	}
@@ -572,6 +598,9 @@ func genC19(g *Gen) {
 		emit("random", kind, ops)
 	}
 
+	genC19Duplicates(g)
+	genC19Large(g)
+
 	// malformed: outside the property's quantifier but inside the model — values
 	// that repeat (Replace/insert of a value already present), absent handles
 	// everywhere, methods the list type does not have
@@ -593,40 +622,467 @@ func genC19(g *Gen) {
 	}
 }
 
+// ---------- values that repeat ----------
+
+// genC19Duplicates: the property's quantifier asks for distinct inserted values; what the lists do
+// when values repeat (a Find handle is the FIRST node carrying the value) is proved all the same
+// (C19_Props: no theorem assumes distinctness) and exercised here, in streams of its own:
+// every history up to the bound over the values {1, 2} from the list [1], then random ones.
+func genC19Duplicates(g *Gen) {
+	emit := func(stream string, kind int, ops []c19Op) {
+		nt, mn, mx := c19Classify(kind, 1, ops)
+		c19Count(g, kind, ops, nt, mn, mx)
+		g.Count("duplicates:histories")
+		g.Case(stream, nt, c19Wire(kind, 1, ops))
+	}
+	bound := g.Pick(3, 4)
+	for kind := 0; kind <= 1; kind++ {
+		var alpha []c19Op
+		for v := 1; v <= 2; v++ {
+			alpha = append(alpha, c19Op{c19Unshift, v, 0}, c19Op{c19Append, v, 0}, c19Op{c19Delete, v, 0})
+			for a := 1; a <= 2; a++ {
+				alpha = append(alpha, c19Op{c19InsertAfter, a, v}, c19Op{c19Replace, a, v})
+				if kind == 1 {
+					alpha = append(alpha, c19Op{c19InsertBefore, a, v})
+				}
+			}
+		}
+		alpha = append(alpha, c19Op{c19Shift, 0, 0}, c19Op{c19Pop, 0, 0})
+		var ops []c19Op
+		var rec func(left int)
+		rec = func(left int) {
+			if left == 0 {
+				emit("duplicates-exhaustive", kind, ops)
+				return
+			}
+			for _, o := range alpha {
+				ops = append(ops, o)
+				rec(left - 1)
+				ops = ops[:len(ops)-1]
+			}
+		}
+		for n := 1; n <= bound; n++ {
+			rec(n)
+		}
+	}
+	g.Exhaustive("duplicates-exhaustive")
+
+	nrand := g.Pick(200, 3000)
+	for c := 0; c < nrand; c++ {
+		kind := g.Rng.Intn(2)
+		steps := 30 + g.Rng.Intn(50)
+		pool := 2 + g.Rng.Intn(4) // values 1..pool
+		s := &c19Ref{xs: []int{1}, dlist: kind == 1}
+		var ops []c19Op
+		for i := 0; i < steps; i++ {
+			v := func() int { return 1 + g.Rng.Intn(pool) }
+			ref := func() int {
+				if g.Rng.Intn(8) == 0 {
+					return v()
+				}
+				return s.xs[g.Rng.Intn(len(s.xs))]
+			}
+			var o c19Op
+			switch x := g.Rng.Intn(12); {
+			case x < 1:
+				o = c19Op{c19Unshift, v(), 0}
+			case x < 2:
+				o = c19Op{c19Append, v(), 0}
+			case x < 4:
+				o = c19Op{c19InsertAfter, ref(), v()}
+			case x < 6:
+				if kind == 1 {
+					o = c19Op{c19InsertBefore, ref(), v()}
+				} else {
+					o = c19Op{c19InsertAfter, ref(), v()}
+				}
+			case x < 8:
+				o = c19Op{c19Replace, ref(), v()}
+			case x < 10:
+				o = c19Op{c19Delete, ref(), 0}
+			case x < 11:
+				o = c19Op{c19Shift, 0, 0}
+			default:
+				o = c19Op{c19Pop, 0, 0}
+			}
+			if len(s.xs) > 9 && g.Rng.Intn(2) == 0 {
+				o = c19Op{c19Delete, ref(), 0}
+			}
+			s.apply(o.code, o.a, o.b)
+			ops = append(ops, o)
+		}
+		emit("duplicates-random", kind, ops)
+	}
+}
+
+// ---------- long lists ----------
+
+// c19Big builds one checkpointed history: the list is looked at (Each, First/Last) only when its
+// length is one of the marked lengths, so a history over a list of n elements produces an
+// observation that is linear in n per checkpoint, not quadratic overall.
+type c19Big struct {
+	g     *Gen
+	kind  int
+	s     *c19Ref
+	fresh int
+	ops   []c19Op
+	marks map[int]bool
+	all   int  // every length up to this one is a checkpoint
+	far   bool // false: only a few checkpoints and full walks (lists of ~10^4 elements)
+}
+
+// mark: a checkpoint that is always taken
+func (b *c19Big) mark() {
+	if n := len(b.ops); n > 0 && b.ops[n-1].code == c19Look {
+		return
+	}
+	b.ops = append(b.ops, c19Op{c19Look, 0, 0})
+}
+
+// look: a checkpoint between the edits; left out on the very long lists
+func (b *c19Big) look() {
+	if b.far {
+		b.mark()
+	}
+}
+
+func (b *c19Big) do(code, a, v int) {
+	before := len(b.s.xs)
+	b.s.apply(code, a, v)
+	b.ops = append(b.ops, c19Op{code, a, v})
+	if n := len(b.s.xs); n != before && (n <= b.all || b.marks[n]) {
+		b.mark()
+	}
+}
+
+func (b *c19Big) next() int  { b.fresh++; return b.fresh - 1 }
+func (b *c19Big) first() int { return b.s.xs[0] }
+func (b *c19Big) last() int  { return b.s.xs[len(b.s.xs)-1] }
+func (b *c19Big) mid() int   { return b.s.xs[len(b.s.xs)/2] }
+func (b *c19Big) any() int   { return b.s.xs[b.g.Rng.Intn(len(b.s.xs))] }
+
+// near: an element at most d places from the front (keeps the Find walk short on very long lists)
+func (b *c19Big) near(d int) int {
+	n := len(b.s.xs)
+	if n > d {
+		n = d
+	}
+	return b.s.xs[b.g.Rng.Intn(n)]
+}
+
+var c19GrowNames = []string{"Append", "Unshift", "InsertAfter", "InsertBefore", "mixed", "front-only"}
+var c19ShrinkNames = []string{"Shift", "Pop", "Delete-first", "Delete-last", "Delete-any", "mixed", "front-only"}
+
+// grow1 adds one element by the given method; pick says which node the handle methods aim at
+// (0 first, 1 last, 2 any).  SList has no InsertBefore: InsertAfter takes its place.
+func (b *c19Big) grow1(method, pick int) {
+	at := func() int {
+		switch pick {
+		case 0:
+			return b.first()
+		case 1:
+			return b.last()
+		}
+		return b.any()
+	}
+	switch method {
+	case 0:
+		b.do(c19Append, b.next(), 0)
+	case 1:
+		b.do(c19Unshift, b.next(), 0)
+	case 2:
+		b.do(c19InsertAfter, at(), b.next())
+	case 3:
+		if b.kind == 1 {
+			b.do(c19InsertBefore, at(), b.next())
+		} else {
+			b.do(c19InsertAfter, at(), b.next())
+		}
+	case 4:
+		b.grow1(b.g.Rng.Intn(4), b.g.Rng.Intn(3))
+	default: // front-only: every method, but always within a few places of the front
+		switch b.g.Rng.Intn(3) {
+		case 0:
+			b.do(c19Unshift, b.next(), 0)
+		case 1:
+			b.do(c19InsertAfter, b.near(4), b.next())
+		default:
+			if b.kind == 1 {
+				b.do(c19InsertBefore, b.near(4), b.next())
+			} else {
+				b.do(c19InsertAfter, b.first(), b.next())
+			}
+		}
+	}
+}
+
+func (b *c19Big) shrink1(method int) {
+	switch method {
+	case 0:
+		b.do(c19Shift, 0, 0)
+	case 1:
+		b.do(c19Pop, 0, 0)
+	case 2:
+		b.do(c19Delete, b.first(), 0)
+	case 3:
+		b.do(c19Delete, b.last(), 0)
+	case 4:
+		b.do(c19Delete, b.any(), 0)
+	case 5:
+		b.shrink1(b.g.Rng.Intn(5))
+	default: // front-only
+		switch b.g.Rng.Intn(3) {
+		case 0:
+			b.do(c19Shift, 0, 0)
+		case 1:
+			b.do(c19Delete, b.first(), 0)
+		default:
+			b.do(c19Delete, b.near(4), 0)
+		}
+	}
+}
+
+// c19LargeCase: grow the one-element list to n elements, look at it with every observer, edit it in
+// the middle and at both ends, shrink it back to one element, try to go below one, use it again.
+// farOK=false keeps every walk near the front (lists of ~10^4 elements: the node-heap model pays
+// for a walk with the address of every node it passes).
+func c19LargeCase(g *Gen, kind, n, grow, shrink, all int, farOK bool) []c19Op {
+	b := &c19Big{g: g, kind: kind, s: &c19Ref{xs: []int{1}, dlist: kind == 1}, fresh: 2, marks: map[int]bool{}, all: all, far: farOK}
+	for k := 32; k <= n+1; k *= 2 {
+		if !farOK && k < n/4 {
+			continue
+		}
+		b.marks[k] = true
+		b.marks[k+1] = true
+		if farOK {
+			b.marks[k-1] = true
+			b.marks[k+2] = true
+			b.marks[k+k/2] = true
+			b.marks[k+k/2+1] = true
+		}
+	}
+	if farOK {
+		b.marks[n-1] = true
+		b.marks[n+1] = true
+		for i := 0; i < 4; i++ {
+			b.marks[2+g.Rng.Intn(n)] = true
+		}
+	}
+	pick := g.Rng.Intn(3)
+	if grow == 3 && !farOK {
+		pick = 0
+	}
+	b.mark()
+	for len(b.s.xs) < n {
+		b.grow1(grow, pick)
+	}
+	// every observer on the grown list
+	b.mark()
+	b.do(c19Find, b.first(), 0)
+	b.do(c19Find, b.near(40), 0)
+	if farOK {
+		b.do(c19Find, b.mid(), 0)
+		b.do(c19Find, b.last(), 0)
+		b.do(c19Find, -7, 0) // never inserted
+	}
+	if kind == 1 {
+		b.do(c19First, 0, 0)
+		b.do(c19Last, 0, 0)
+	}
+	// edits in the middle ...
+	inner := b.mid
+	if !farOK {
+		inner = func() int { return b.near(40) }
+	}
+	b.do(c19Replace, inner(), b.next())
+	b.do(c19InsertAfter, inner(), b.next())
+	if kind == 1 {
+		b.do(c19InsertBefore, inner(), b.next())
+	}
+	b.look()
+	b.do(c19Delete, inner(), 0)
+	b.do(c19Delete, inner(), 0)
+	b.look()
+	// ... at the front ...
+	b.do(c19Unshift, b.next(), 0)
+	b.do(c19Replace, b.first(), b.next())
+	b.do(c19InsertAfter, b.first(), b.next())
+	if kind == 1 {
+		b.do(c19InsertBefore, b.first(), b.next())
+	}
+	b.look()
+	b.do(c19Delete, b.first(), 0)
+	b.do(c19Shift, 0, 0)
+	b.look()
+	// ... and at the back (one full walk each)
+	b.do(c19Append, b.next(), 0)
+	b.do(c19Replace, b.last(), b.next())
+	b.do(c19InsertAfter, b.last(), b.next())
+	if kind == 1 {
+		b.do(c19InsertBefore, b.last(), b.next())
+	}
+	b.look()
+	b.do(c19Delete, b.last(), 0)
+	b.do(c19Pop, 0, 0)
+	b.mark()
+	if kind == 1 && grow == 4 && shrink == 5 {
+		// Clear on a long list, then grow again a little
+		b.do(c19Clear, 0, 0)
+		b.mark()
+		for len(b.s.xs) < 34 {
+			b.grow1(4, 2)
+		}
+	}
+	for len(b.s.xs) > 1 {
+		b.shrink1(shrink)
+	}
+	// the single element stays; the list is usable afterwards
+	b.do(c19Shift, 0, 0)
+	b.mark()
+	b.do(c19Pop, 0, 0)
+	b.do(c19Delete, b.first(), 0)
+	b.mark()
+	b.do(c19Append, b.next(), 0)
+	b.do(c19Unshift, b.next(), 0)
+	b.do(c19InsertAfter, b.mid(), b.next())
+	b.mark()
+	return b.ops
+}
+
+func genC19Large(g *Gen) {
+	emit := func(kind, n, grow, shrink int, ops []c19Op) {
+		nt, _, _ := c19Classify(kind, 1, ops)
+		if kind == 0 {
+			g.Count("type:SList")
+		} else {
+			g.Count("type:DList")
+		}
+		g.Count(fmt.Sprintf("large:size:%d", n))
+		g.Count("large:grow:" + c19GrowNames[grow])
+		g.Count("large:shrink:" + c19ShrinkNames[shrink])
+		for _, o := range ops {
+			if o.code == c19Look {
+				g.Count("large:checkpoints")
+			}
+		}
+		g.Case("large", nt, c19Wire(kind+2, 1, ops))
+	}
+	for kind := 0; kind <= 1; kind++ {
+		// every way of growing with every way of shrinking
+		for _, n := range []int{33, 64, 65, 129} {
+			for grow := 0; grow <= 4; grow++ {
+				for shrink := 0; shrink <= 5; shrink++ {
+					emit(kind, n, grow, shrink, c19LargeCase(g, kind, n, grow, shrink, 3, true))
+				}
+			}
+		}
+		// every length up to 130 is a checkpoint, on the way up and on the way down
+		emit(kind, 130, 0, 1, c19LargeCase(g, kind, 130, 0, 1, 130, true))
+		emit(kind, 130, 1, 0, c19LargeCase(g, kind, 130, 1, 0, 130, true))
+		emit(kind, 130, 4, 5, c19LargeCase(g, kind, 130, 4, 5, 130, true))
+		for grow := 0; grow <= 4; grow++ {
+			for _, shrink := range []int{grow % 6, (grow + 3) % 6} {
+				emit(kind, 257, grow, shrink, c19LargeCase(g, kind, 257, grow, shrink, 3, true))
+			}
+		}
+		// longer lists: one pairing per way of growing (the node-heap model pays for every walk with
+		// the addresses it passes: a 1025-element history costs it seconds); the quick tier takes
+		// three of the five pairings per list type, different ones for the two types
+		pairs := [][2]int{{0, 1}, {1, 0}, {2, 4}, {3, 3}, {4, 5}}
+		if g.Quick() {
+			if kind == 0 {
+				pairs = [][2]int{{0, 1}, {1, 2}, {4, 5}}
+			} else {
+				pairs = [][2]int{{1, 0}, {3, 4}, {4, 5}}
+			}
+			for _, p := range pairs {
+				emit(kind, 1025, p[0], p[1], c19LargeCase(g, kind, 1025, p[0], p[1], 3, true))
+			}
+		} else {
+			for _, n := range []int{513, 1025} {
+				for _, p := range pairs {
+					emit(kind, n, p[0], p[1], c19LargeCase(g, kind, n, p[0], p[1], 3, true))
+				}
+			}
+			for _, p := range pairs[kind : kind+3] {
+				emit(kind, 2049, p[0], p[1], c19LargeCase(g, kind, 2049, p[0], p[1], 3, true))
+			}
+		}
+		if !g.Quick() {
+			// ~10^4 elements: grown and shrunk within a few places of the front (every method), a
+			// handful of full walks and checkpoints
+			emit(kind, 4097, 1, 0, c19LargeCase(g, kind, 4097, 1, 0, 3, false))
+			emit(kind, 4097, 5, 6, c19LargeCase(g, kind, 4097, 5, 6, 3, false))
+			emit(kind, 10001, 5, 6, c19LargeCase(g, kind, 10001, 5, 6, 3, false))
+		}
+	}
+}
+
 func describeC19(in []int64) string {
 	if len(in) < 2 {
 		return "malformed"
 	}
 	var sb strings.Builder
-	if in[0] == 0 {
+	if in[0] == 0 || in[0] == 2 {
 		fmt.Fprintf(&sb, "l := list.Init(%d)", in[1])
 	} else {
 		fmt.Fprintf(&sb, "l := list.InitDList(%d)", in[1])
 	}
 	rest := in[2:]
-	for i := 0; i+3 <= len(rest); i += 3 {
+	one := func(i int) string {
 		code, a, b := int(rest[i]), rest[i+1], rest[i+2]
-		sb.WriteString("; ")
 		switch code {
 		case c19Unshift, c19Append:
-			fmt.Fprintf(&sb, "l.%s(%d)", c19Names[code], a)
+			return fmt.Sprintf("l.%s(%d)", c19Names[code], a)
 		case c19InsertAfter, c19InsertBefore:
-			fmt.Fprintf(&sb, "l.%s(Find(%d), %d)", c19Names[code], a, b)
+			return fmt.Sprintf("l.%s(Find(%d), %d)", c19Names[code], a, b)
 		case c19Replace:
-			fmt.Fprintf(&sb, "l.Replace(%d, %d)", a, b)
+			return fmt.Sprintf("l.Replace(%d, %d)", a, b)
 		case c19Delete:
-			fmt.Fprintf(&sb, "l.Delete(Find(%d))", a)
+			return fmt.Sprintf("l.Delete(Find(%d))", a)
 		case c19Find:
-			fmt.Fprintf(&sb, "l.Find(%d)", a)
-		default:
-			if code >= 1 && code <= 12 {
-				fmt.Fprintf(&sb, "l.%s()", c19Names[code])
+			return fmt.Sprintf("l.Find(%d)", a)
+		case c19Look:
+			return "LOOK"
+		}
+		if code >= 1 && code <= 12 {
+			return fmt.Sprintf("l.%s()", c19Names[code])
+		}
+		return fmt.Sprintf("?%d", code)
+	}
+	// runs of the same method are folded, LOOKs inside a run counted: "32x l.Append(2) .. l.Append(33) (3 LOOKs)"
+	for i := 0; i+3 <= len(rest); {
+		j, n, looks, lastOp := i, 0, 0, i
+		for j+3 <= len(rest) && (rest[j] == rest[i] || (rest[j] == c19Look && n > 0)) {
+			if rest[j] == c19Look {
+				looks++
 			} else {
-				fmt.Fprintf(&sb, "?%d", code)
+				n++
+				lastOp = j
+			}
+			j += 3
+		}
+		sb.WriteString("; ")
+		if n > 4 && rest[i] != c19Look {
+			fmt.Fprintf(&sb, "%dx %s .. %s", n, one(i), one(lastOp))
+			if looks > 0 {
+				fmt.Fprintf(&sb, " (%d LOOK(s) in between, the last %s)", looks, map[bool]string{true: "at the end", false: "before the end"}[rest[j-3] == c19Look])
+			}
+		} else {
+			for k := i; k < j; k += 3 {
+				if k > i {
+					sb.WriteString("; ")
+				}
+				sb.WriteString(one(k))
 			}
 		}
+		i = j
 	}
-	sb.WriteString("   [Each, First/Last observed after every step]")
+	if in[0] >= 2 {
+		sb.WriteString("   [call results recorded; Each, First/Last observed at every LOOK]")
+	} else {
+		sb.WriteString("   [Each, First/Last observed after every step]")
+	}
 	return sb.String()
 }
 
@@ -635,8 +1091,13 @@ func init() {
 		ID: "C19",
 		Rule: "histories on list.SList and list.DList from a one-element list: exhaustive up to the tier's bound " +
 			"(full alphabet incl. observers, absent values and Clear up to 4 steps, thorough 5 for SList; mutators with present Find handles up to 5 steps, thorough 6), " +
-			"fresh distinct inserted values, handles from Find immediately before use; then seeded random histories of 200 steps, " +
-			"and a malformed stream with repeating values. After every step the Each sequence and (DList) First/Last are recorded. " +
+			"fresh distinct inserted values, handles from Find immediately before use; then seeded random histories of 200 steps. " +
+			"After every step the Each sequence and (DList) First/Last are recorded. " +
+			"Streams of their own: values that repeat (every history up to 3 steps, thorough 4, over the values {1,2}, and random ones); " +
+			"long lists (grown to 33, 64, 65, 129, 130, 257, 1025 elements — thorough also 513, 2049, 4097, 10001 — by Append / Unshift / InsertAfter / InsertBefore, " +
+			"observed with every observer, edited in the middle and at both ends, shrunk back to one element by Shift / Pop / Delete; " +
+			"call results recorded at every step, Each and First/Last at checkpoint lengths 32k-1..32k+2 and others); " +
+			"a malformed stream (repeating values, absent handles, methods the list type lacks). " +
 			"non-trivial = an operation that replaces the embedded head node (Unshift, Shift, Delete or InsertBefore at the head) " +
 			"is followed later by InsertAfter/InsertBefore/Delete through a Find handle on a present node",
 		Exec:     execC19,
